@@ -236,7 +236,7 @@ const NONE: usize = usize::MAX;
 // ------------------------------------------------------------------------------------------
 // next_pkid: function contract, all max_inflight >= 1 (no table involved) — complete
 // ------------------------------------------------------------------------------------------
-// @harness props=C07 tier=quick kind=complete bound="none: all max_inflight >= 1, all last_pkid < max_inflight (loop-free)" fn=MqttState::next_pkid
+// @harness props=C07 tier=quick kind=complete bound="none: all max_inflight >= 1, all last_pkid < max_inflight (loop-free)" fn=MqttState::next_pkid covered_by=cstate4
 #[kani::proof]
 fn v4_next_pkid_contract() {
     // state without tables: next_pkid touches last_pkid / max_inflight only
@@ -272,7 +272,7 @@ fn v4_next_pkid_contract() {
 // ------------------------------------------------------------------------------------------
 // PUBACK
 // ------------------------------------------------------------------------------------------
-// @steps name=v4_puback props=C02,C07,C10,C18 fn=MqttState::handle_incoming_puback call=puback_step
+// @steps name=v4_puback props=C02,C07,C10,C18 fn=MqttState::handle_incoming_puback call=puback_step covered_by=cstate4
 fn puback_step(n: usize) {
     let mut st = any_state(n, 0);
     let g = ghost(&st);
@@ -325,7 +325,7 @@ fn puback_step(n: usize) {
 // ------------------------------------------------------------------------------------------
 // PUBREC
 // ------------------------------------------------------------------------------------------
-// @steps name=v4_pubrec props=C02,C07,C10,C18 fn=MqttState::handle_incoming_pubrec call=pubrec_step
+// @steps name=v4_pubrec props=C02,C07,C10,C18 fn=MqttState::handle_incoming_pubrec call=pubrec_step covered_by=cstate4
 fn pubrec_step(n: usize) {
     let mut st = any_state(n, 0);
     let g = ghost(&st);
@@ -364,7 +364,7 @@ fn pubrec_step(n: usize) {
 // ------------------------------------------------------------------------------------------
 // PUBCOMP
 // ------------------------------------------------------------------------------------------
-// @steps name=v4_pubcomp props=C02,C07,C10,C18 fn=MqttState::handle_incoming_pubcomp call=pubcomp_step
+// @steps name=v4_pubcomp props=C02,C07,C10,C18 fn=MqttState::handle_incoming_pubcomp call=pubcomp_step covered_by=cstate4
 fn pubcomp_step(n: usize) {
     let mut st = any_state(n, 0);
     let g = ghost(&st);
@@ -417,7 +417,7 @@ fn pubcomp_step(n: usize) {
 // ------------------------------------------------------------------------------------------
 // outgoing publish
 // ------------------------------------------------------------------------------------------
-// @steps name=v4_outgoing_publish props=C02,C07,C10,C18 fn=MqttState::outgoing_publish call=outgoing_publish_step ns=quick:1,2;thorough:1,2,3
+// @steps name=v4_outgoing_publish props=C02,C07,C10,C18 fn=MqttState::outgoing_publish call=outgoing_publish_step ns=quick:1,2;thorough:1,2,3 covered_by=cstate4
 fn outgoing_publish_step(n: usize) {
     let mut st = any_state(n, 0);
     let g = ghost(&st);
@@ -478,7 +478,7 @@ fn outgoing_publish_step(n: usize) {
 // ------------------------------------------------------------------------------------------
 // release replay (outgoing_pubrel / save_pubrel)
 // ------------------------------------------------------------------------------------------
-// @steps name=v4_outgoing_pubrel props=C02,C07 fn=MqttState::outgoing_pubrel call=outgoing_pubrel_step
+// @steps name=v4_outgoing_pubrel props=C02,C07 fn=MqttState::outgoing_pubrel call=outgoing_pubrel_step covered_by=cstate4
 fn outgoing_pubrel_step(n: usize) {
     let mut st = any_state(n, 0);
     let g = ghost(&st);
@@ -545,7 +545,7 @@ fn clean_step(n: usize) {
 // ------------------------------------------------------------------------------------------
 pub const ICAP: usize = 8;
 
-// @harness props=C10 tier=quick kind=bounded bound="incoming QoS2 id table of 8 bits (real: 65536, see v4_new_tables); ids of QoS0/1 publishes full u16; table size max_inflight=1" fn=MqttState::handle_incoming_publish
+// @harness props=C10 tier=quick kind=bounded bound="incoming QoS2 id table of 8 bits (real: 65536, see v4_new_tables); ids of QoS0/1 publishes full u16; table size max_inflight=1" fn=MqttState::handle_incoming_publish covered_by=cstate4
 #[kani::proof]
 #[kani::unwind(@UNWIND@)]
 fn v4_incoming_publish() {
@@ -601,7 +601,7 @@ fn v4_incoming_publish() {
     core::mem::forget(st);
 }
 
-// @harness props=C10 tier=quick kind=bounded bound="incoming QoS2 id table of 8 bits; PUBREL ids full u16 (ids >= 8 are unsolicited)" fn=MqttState::handle_incoming_pubrel
+// @harness props=C10 tier=quick kind=bounded bound="incoming QoS2 id table of 8 bits; PUBREL ids full u16 (ids >= 8 are unsolicited)" fn=MqttState::handle_incoming_pubrel covered_by=cstate4
 #[kani::proof]
 #[kani::unwind(@UNWIND@)]
 fn v4_incoming_pubrel() {
@@ -633,7 +633,7 @@ fn v4_incoming_pubrel() {
     core::mem::forget(st);
 }
 
-// @harness props=C10 tier=quick kind=complete bound="none (loop-free, ids full u16)" fn=MqttState::outgoing_puback+outgoing_pubrec+outgoing_disconnect
+// @harness props=C10 tier=quick kind=complete bound="none (loop-free, ids full u16)" fn=MqttState::outgoing_puback+outgoing_pubrec+outgoing_disconnect covered_by=cstate4
 #[kani::proof]
 #[kani::unwind(@UNWIND@)]
 fn v4_outgoing_acks() {
@@ -671,7 +671,7 @@ fn v4_outgoing_acks() {
 // ------------------------------------------------------------------------------------------
 // subscribe / unsubscribe ids (C07)
 // ------------------------------------------------------------------------------------------
-// @harness props=C07,C10 tier=quick kind=bounded bound="one filter with empty path; table size max_inflight=2; last_pkid full domain under wf" fn=MqttState::outgoing_subscribe+outgoing_unsubscribe
+// @harness props=C07,C10 tier=quick kind=bounded bound="one filter with empty path; table size max_inflight=2; last_pkid full domain under wf" fn=MqttState::outgoing_subscribe+outgoing_unsubscribe covered_by=cstate4
 #[kani::proof]
 #[kani::unwind(@UNWIND@)]
 fn v4_outgoing_sub_unsub() {
@@ -721,7 +721,7 @@ fn v4_outgoing_sub_unsub() {
 // ------------------------------------------------------------------------------------------
 // keep-alive flag protocol (C18, reduced scope: no timing)
 // ------------------------------------------------------------------------------------------
-// @harness props=C18 tier=quick kind=complete bound="none (loop-free; Instant::now stubbed)" fn=MqttState::outgoing_ping+handle_incoming_pingresp
+// @harness props=C18 tier=quick kind=complete bound="none (loop-free; Instant::now stubbed)" fn=MqttState::outgoing_ping+handle_incoming_pingresp covered_by=cstate4
 #[kani::proof]
 #[kani::unwind(@UNWIND@)]
 #[kani::stub(std::time::Instant::now, stub_now)]
